@@ -240,6 +240,16 @@ func suiteSpecs() []fieldSpec {
 	}
 }
 
+// checkRESTEndpoints verifies routing, method gate, field mapping and per-request decoding of the given
+// endpoints (all ten when none is named). Used by C18 and, for the endpoint that exposes their
+// operation, by the library properties.
+func checkRESTEndpoints(c *Check, w *World, tb *TB, ef *Effects, pfx string, only ...string) {
+	if w.SPkgs[ApiPath] == nil {
+		return
+	}
+	restRules(c, w, tb, ef, pfx, only)
+}
+
 func runC18(c *Check, w *World) {
 	if w.SPkgs[ApiPath] == nil {
 		c.Fatal("package %s not loaded", ApiPath)
@@ -247,6 +257,26 @@ func runC18(c *Check, w *World) {
 	}
 	tb := NewTB(w)
 	ef := NewEffects(tb)
+	restRules(c, w, tb, ef, "R18", nil)
+	c.Floor("R18.1", 20)
+	c.Floor("R18.2", 60)
+	c.Floor("R18.4", 2)
+	c.Floor("R18.5", 20)
+}
+
+func restRules(c *Check, w *World, tb *TB, ef *Effects, pfx string, only []string) {
+	sel := func(path string) bool {
+		if len(only) == 0 {
+			return true
+		}
+		for _, o := range only {
+			if o == path {
+				return true
+			}
+		}
+		return false
+	}
+	full := len(only) == 0
 	routes, rf := routeTable(w, tb)
 	if rf == nil {
 		c.Fatal("anchor not found: api.routers")
@@ -275,9 +305,12 @@ func runC18(c *Check, w *World) {
 	}
 	var handlers []*ssa.Function
 	for path, libs := range wantLib {
+		if !sel(path) {
+			continue
+		}
 		r, ok := byPath[path]
 		if !ok || r.handler == nil {
-			c.Bad("R18.1", FuncName(rf), "route:"+path, "the documented route "+path+" is not served by a handler", w.Pos(rf.Pos()))
+			c.Bad(pfx+".1", FuncName(rf), "route:"+path, "the documented route "+path+" is not served by a handler", w.Pos(rf.Pos()))
 			continue
 		}
 		handlers = append(handlers, r.handler)
@@ -302,7 +335,7 @@ func runC18(c *Check, w *World) {
 			}
 		}
 		sort.Strings(got)
-		c.Decide(okLib, "R18.1", FuncName(rf), "route:"+path, "route → handler calling "+strings.Join(libs, "/"), fmt.Sprintf("route %s is served by %s, which calls %v instead of %v", path, FuncName(r.factory), got, libs), r.pos)
+		c.Decide(okLib, pfx+".1", FuncName(rf), "route:"+path, "route → handler calling "+strings.Join(libs, "/"), fmt.Sprintf("route %s is served by %s, which calls %v instead of %v", path, FuncName(r.factory), got, libs), r.pos)
 		// method gate
 		m := wantMethod[path]
 		if m == "" {
@@ -315,16 +348,19 @@ func runC18(c *Check, w *World) {
 				gate = true
 			}
 		}
-		c.Decide(gate, "R18.1", FuncName(r.handler), "method-gate:"+m, "the handler starts with the "+m+" gate", "the handler does not start by testing "+m, w.Pos(r.handler.Pos()))
+		c.Decide(gate, pfx+".1", FuncName(r.handler), "method-gate:"+m, "the handler starts with the "+m+" gate", "the handler does not start by testing "+m, w.Pos(r.handler.Pos()))
 	}
 	// distinct handlers
 	seenH := map[*ssa.Function]string{}
 	for _, r := range routes {
+		if !full {
+			break
+		}
 		if r.handler == nil {
 			continue
 		}
 		if p, dup := seenH[r.handler]; dup {
-			c.Bad("R18.1", FuncName(rf), "route:"+r.path, "routes "+p+" and "+r.path+" share one handler", r.pos)
+			c.Bad(pfx+".1", FuncName(rf), "route:"+r.path, "routes "+p+" and "+r.path+" share one handler", r.pos)
 		}
 		seenH[r.handler] = r.path
 	}
@@ -348,14 +384,14 @@ func runC18(c *Check, w *World) {
 	}
 	checkArgs := func(path, lib string, argSpecs []interface{}, respField string) {
 		r, ok := byPath[path]
-		if !ok || r.handler == nil {
+		if !ok || r.handler == nil || !sel(path) {
 			return
 		}
 		hi := analyseHandler(w, tb, r.handler)
 		fn := FuncName(r.handler)
 		calls := libCallsOf(r.handler)[lib]
 		if len(calls) != 1 {
-			c.Bad("R18.2", fn, "call:"+lib, fmt.Sprintf("%d calls of otp.%s in the handler of %s, expected one", len(calls), lib, path), w.Pos(r.handler.Pos()))
+			c.Bad(pfx+".2", fn, "call:"+lib, fmt.Sprintf("%d calls of otp.%s in the handler of %s, expected one", len(calls), lib, path), w.Pos(r.handler.Pos()))
 			return
 		}
 		h := calls[0]
@@ -368,15 +404,15 @@ func runC18(c *Check, w *World) {
 			switch s := sp.(type) {
 			case []string:
 				g := hi.norm(h.Args[i])
-				c.Decide(oneOf(g, s...), "R18.2", fn, what, what+" ← "+s[0], fmt.Sprintf("%s is %s, expected %s", what, clip(g, 200), s[0]), pos)
+				c.Decide(oneOf(g, s...), pfx+".2", fn, what, what+" ← "+s[0], fmt.Sprintf("%s is %s, expected %s", what, clip(g, 200), s[0]), pos)
 			case []fieldSpec:
-				checkStructArg(c, w, "R18.2", fn, what, hi.structFields(tb, h.Args[i]), s, pos)
+				checkStructArg(c, w, pfx+".2", fn, what, hi.structFields(tb, h.Args[i]), s, pos)
 			case func(string) string:
 				g := hi.norm(h.Args[i])
 				if why := s(g); why != "" {
-					c.Bad("R18.2", fn, what, why, pos)
+					c.Bad(pfx+".2", fn, what, why, pos)
 				} else {
-					c.OK("R18.2", fn, what, "argument as documented", pos)
+					c.OK(pfx+".2", fn, what, "argument as documented", pos)
 				}
 			}
 		}
@@ -404,10 +440,10 @@ func runC18(c *Check, w *World) {
 					found = true
 				}
 			})
-			c.Decide(found, "R18.2", fn, "response."+respField, "the response field "+respField+" is the library's result", "the response field "+respField+" is not the first result of otp."+lib, pos)
+			c.Decide(found, pfx+".2", fn, "response."+respField, "the response field "+respField+" is the library's result", "the response field "+respField+" is not the first result of otp."+lib, pos)
 		}
 		// the decode target is a per-request local
-		c.Decide(hi.reqRoot == "alloc", "R18.5", fn, "request-object", "the request is decoded into a fresh per-request local", "the request is decoded into "+hi.reqRoot+": fields omitted by a request keep the values of an earlier request", w.Pos(r.handler.Pos()))
+		c.Decide(hi.reqRoot == "alloc", pfx+".5", fn, "request-object", "the request is decoded into a fresh per-request local", "the request is decoded into "+hi.reqRoot+": fields omitted by a request keep the values of an earlier request", w.Pos(r.handler.Pos()))
 	}
 	checkArgs("/totp/generate", "GenerateTOTP", []interface{}{secretForms, []string{tTime}, paramSpecs("Algorithm", "Digits", "Period")}, "Code")
 	checkArgs("/totp/validate", "ValidateTOTP", []interface{}{secretForms, []string{"$code"}, []string{tTime}, paramSpecs("Algorithm", "Digits", "Period", "Skew")}, "Valid")
@@ -441,7 +477,7 @@ func runC18(c *Check, w *World) {
 	}
 	checkArgs("/ocra/suite", "SuiteConfigFromRaws", []interface{}{[]string{"$raw_suite"}}, "")
 	// /ocra/suite response mapping
-	if r, ok := byPath["/ocra/suite"]; ok && r.handler != nil {
+	if r, ok := byPath["/ocra/suite"]; ok && r.handler != nil && sel("/ocra/suite") {
 		fn := FuncName(r.handler)
 		calls := libCallsOf(r.handler)["SuiteConfigFromRaws"]
 		if len(calls) == 1 {
@@ -466,22 +502,22 @@ func runC18(c *Check, w *World) {
 			}
 			sort.Strings(names)
 			for _, n := range names {
-				c.Decide(oneOf(got[n], want[n]...), "R18.2", fn, "response."+n, "suite description field "+n+" reflects the registry entry's field", "response field "+n+" is "+clip(got[n], 160)+", expected "+want[n][0], w.Pos(r.handler.Pos()))
+				c.Decide(oneOf(got[n], want[n]...), pfx+".2", fn, "response."+n, "suite description field "+n+" reflects the registry entry's field", "response field "+n+" is "+clip(got[n], 160)+", expected "+want[n][0], w.Pos(r.handler.Pos()))
 			}
 		}
 	}
 	// /otp/secret
-	if r, ok := byPath["/otp/secret"]; ok && r.handler != nil {
+	if r, ok := byPath["/otp/secret"]; ok && r.handler != nil && sel("/otp/secret") {
 		fn := FuncName(r.handler)
 		calls := libCallsOf(r.handler)["RandomSecret"]
 		if len(calls) == 1 {
 			g := calls[0].Args[0].String()
 			ok := strings.HasPrefix(g, "call(github.com/ja7ad/otp.AlgorithmFromStr; conv(string; call((*github.com/valyala/fasthttp.Args).Peek;") && strings.Contains(g, `const("algorithm")`)
-			c.Decide(ok, "R18.2", fn, "RandomSecret.arg0", "hash ← AlgorithmFromStr(query algorithm)", "RandomSecret is called with "+clip(g, 200), w.InstrPos(calls[0].Call))
+			c.Decide(ok, pfx+".2", fn, "RandomSecret.arg0", "hash ← AlgorithmFromStr(query algorithm)", "RandomSecret is called with "+clip(g, 200), w.InstrPos(calls[0].Call))
 		}
 	}
 	// /ocra/suites
-	if r, ok := byPath["/ocra/suites"]; ok && r.handler != nil {
+	if r, ok := byPath["/ocra/suites"]; ok && r.handler != nil && sel("/ocra/suites") {
 		found := false
 		EachInstr(r.handler, func(in ssa.Instruction) {
 			if st, ok := in.(*ssa.Store); ok {
@@ -490,9 +526,30 @@ func runC18(c *Check, w *World) {
 				}
 			}
 		})
-		c.Decide(found, "R18.2", FuncName(r.handler), "response.Suites", "the suite list is the library's ListSuites()", "the suites response is not ListSuites()", w.Pos(r.handler.Pos()))
+		c.Decide(found, pfx+".2", FuncName(r.handler), "response.Suites", "the suite list is the library's ListSuites()", "the suites response is not ListSuites()", w.Pos(r.handler.Pos()))
 	}
 
+	if !full {
+		// statelessness of the selected handlers only
+		var hs []*ssa.Function
+		for _, r := range routes {
+			if r.handler != nil && sel(r.path) {
+				for f := range w.Reachable(r.handler) {
+					if fnPkgPath(f) == ApiPath {
+						hs = append(hs, f)
+					}
+				}
+			}
+		}
+		sortFuncs(hs)
+		ruleNoPkgState(c, w, tb, ef, pfx+".5", hs)
+		for _, f := range hs {
+			for _, g := range poolCalls(f, "Get") {
+				c.Bad(pfx+".5", FuncName(f), "pooled-request-state", "the service layer takes objects from a sync.Pool: fields or buffers left by an earlier request can reach a later one", w.InstrPos(g))
+			}
+		}
+		return
+	}
 	// ---- R18.4 string -> enum fall-backs -----------------------------------------------------------
 	checkFallback := func(name string, want map[string]string, def string) {
 		f := w.Func(OtpPath, name)
@@ -527,7 +584,7 @@ func runC18(c *Check, w *World) {
 				}
 			}
 		}
-		c.Decide(ok && defOK, "R18.4", FuncName(f), "fallback-table", "spellings map to their values and anything else falls back to the documented default", fmt.Sprintf("table is %v (default ok: %v), documented %v default %s", got, defOK, want, def), w.Pos(f.Pos()))
+		c.Decide(ok && defOK, pfx+".4", FuncName(f), "fallback-table", "spellings map to their values and anything else falls back to the documented default", fmt.Sprintf("table is %v (default ok: %v), documented %v default %s", got, defOK, want, def), w.Pos(f.Pos()))
 	}
 	checkFallback("AlgorithmFromStr", map[string]string{"SHA1": "0", "SHA256": "1", "SHA512": "2"}, "0")
 	checkFallback("DigitsFromStr", map[string]string{"6": "6", "8": "8", "9": "9", "10": "10"}, "6")
@@ -542,17 +599,13 @@ func runC18(c *Check, w *World) {
 		}
 		nonLife = append(nonLife, f)
 	}
-	ruleNoPkgState(c, w, tb, ef, "R18.5", nonLife)
+	ruleNoPkgState(c, w, tb, ef, pfx+".5", nonLife)
 	for _, f := range nonLife {
 		for _, g := range poolCalls(f, "Get") {
-			c.Bad("R18.5", FuncName(f), "pooled-request-state", "the service layer takes objects from a sync.Pool: fields or buffers left by an earlier request can reach a later one", w.InstrPos(g))
+			c.Bad(pfx+".5", FuncName(f), "pooled-request-state", "the service layer takes objects from a sync.Pool: fields or buffers left by an earlier request can reach a later one", w.InstrPos(g))
 		}
 	}
-	ruleNoConcurrencyPrimitives(c, w, "R18.5", nonLife)
-	c.Floor("R18.1", 20)
-	c.Floor("R18.2", 60)
-	c.Floor("R18.4", 2)
-	c.Floor("R18.5", 20)
+	ruleNoConcurrencyPrimitives(c, w, pfx+".5", nonLife)
 }
 
 func init() {
